@@ -57,6 +57,7 @@ func (m *Manager) Close() {
 	for _, ch := range m.subscribers {
 		close(ch)
 	}
+	m.subscribers = nil
 }
 
 func (m *Manager) GetCurrentNIC() string {
@@ -118,17 +119,17 @@ func (m *Manager) start() error {
 			return nil
 		case nic := <-m.nicChangeEventCh:
 			m.currentNICName.Store(nic)
+			// the sends never block, so the list stays locked while it is walked: unsubscribe
+			// compacts the same backing array and Close closes the channels
 			m.subscribersMu.Lock()
-			subs := m.subscribers
-			m.subscribersMu.Unlock()
-			for _, ch := range subs {
+			for _, ch := range m.subscribers {
 				select {
-				case <-m.ctx.Done():
 				case ch <- nic:
 				default:
 					slog.WarnContext(m.ctx, "Failed to send NIC change event", "nic", nic)
 				}
 			}
+			m.subscribersMu.Unlock()
 		}
 	}
 }
